@@ -399,9 +399,12 @@ pub fn run(input: &Value) -> Case {
 
 // ---------------------------------------------------------------- generators
 
-fn img_desc(rng: &mut Rng, big: bool) -> Value {
-    let (h, w) = if big {
+fn img_desc(rng: &mut Rng, big: u8) -> Value {
+    // big: 0 = small, 1 = around the one / two / three chunk boundaries, 2 = also up to six chunks (thorough tier)
+    let (h, w) = if big == 2 {
         *rng.pick(&[(32usize, 24usize), (24, 32), (769, 1), (1, 769), (32, 32), (48, 32), (64, 64), (40, 40), (33, 24)])
+    } else if big == 1 {
+        *rng.pick(&[(32usize, 24usize), (24, 32), (769, 1), (1, 769), (32, 32), (33, 24), (40, 40)])
     } else {
         match rng.below(20) {
             0 => (rng.below(2) as usize * 3, rng.below(2) as usize * 3),
@@ -453,7 +456,7 @@ fn gen_pos(rng: &mut Rng, pool: &[(usize, usize)]) -> (usize, usize) {
     }
 }
 
-fn gen_history(rng: &mut Rng, big: bool) -> Value {
+fn gen_history(rng: &mut Rng, big: u8) -> Value {
     let nimg = 1 + rng.below(3) as usize;
     let mut images: Vec<Value> = vec![];
     for i in 0..nimg {
@@ -462,13 +465,17 @@ fn gen_history(rng: &mut Rng, big: bool) -> Value {
             let d = images[rng.below(i as u64) as usize].clone();
             images.push(d);
         } else {
-            images.push(img_desc(rng, big && i == 0));
+            images.push(img_desc(rng, if i == 0 { big } else { 0 }));
         }
     }
     let pool: Vec<(usize, usize)> =
         (0..3).map(|_| if rng.chance(1, 3) { *rng.pick(&CORNERS) } else { (rng.below(50) as usize, rng.below(200) as usize) }).collect();
-    let nops = 1 + rng.below(if big { 6 } else { 20 }) as usize;
+    let nops = 1 + rng.below(if big > 0 { 6 } else { 20 }) as usize;
     let mut ops = vec![];
+    if big > 0 {
+        let p = gen_pos(rng, &pool);
+        ops.push(json!({"op":"draw","img":0,"pos":[p.0,p.1]}));
+    }
     for _ in 0..nops {
         let k = rng.below(nimg as u64);
         match rng.below(20) {
@@ -509,7 +516,11 @@ fn gen_history(rng: &mut Rng, big: bool) -> Value {
 pub fn generate(rng: &mut Rng, n: usize, tier: &str) -> Vec<Value> {
     let mut v = vec![];
     // fixed part: one draw of every small size, the chunk boundaries, every corner position
-    for (h, w) in [(0usize, 0usize), (0, 3), (3, 0), (1, 1), (1, 2), (2, 1), (3, 3), (32, 24), (769, 1), (48, 32), (64, 64)] {
+    let mut sizes = vec![(0usize, 0usize), (0, 3), (3, 0), (1, 1), (1, 2), (2, 1), (3, 3), (32, 24), (769, 1), (48, 32), (40, 40)];
+    if tier == "thorough" {
+        sizes.push((64, 64));
+    }
+    for (h, w) in sizes {
         v.push(json!({"quiet": false, "images":[{"h":h,"w":w,"seed":h*100+w,"style":0}],
                       "ops":[{"op":"draw","img":0,"pos":[3,4]},{"op":"draw","img":0,"pos":[3,4]},{"op":"erase","img":0,"pos":[3,4]}]}));
     }
@@ -544,7 +555,7 @@ pub fn generate(rng: &mut Rng, n: usize, tier: &str) -> Vec<Value> {
     let every = if tier == "thorough" { 12 } else { 25 };
     let mut k = 0;
     while v.len() < n {
-        v.push(gen_history(rng, k % every == 3));
+        v.push(gen_history(rng, if k % every == 3 { if tier == "thorough" { 2 } else { 1 } } else { 0 }));
         k += 1;
     }
     v
